@@ -70,6 +70,42 @@ func PathAvoidingIf(fn *ssa.Function, target ssa.Instruction, avoid func(ssa.Ins
 	type env struct {
 		assign map[condAtom]bool
 		from   map[*ssa.BasicBlock]*ssa.BasicBlock
+		// boolean locals that live in memory (named results, variables captured by a deferred
+		// closure): value last stored on the path, and the value each load saw
+		mem   map[*ssa.Alloc]ssa.Value
+		loads map[*ssa.UnOp]ssa.Value
+	}
+	// tracked: bool allocs whose address is only stored to / loaded from
+	tracked := map[*ssa.Alloc]bool{}
+	for _, b := range fn.Blocks {
+		for _, in := range b.Instrs {
+			a, ok := in.(*ssa.Alloc)
+			if !ok || a.Referrers() == nil {
+				continue
+			}
+			if bt, isB := a.Type().(*types.Pointer).Elem().Underlying().(*types.Basic); !isB || bt.Kind() != types.Bool {
+				continue
+			}
+			okRefs := true
+			for _, rf := range *a.Referrers() {
+				switch x := rf.(type) {
+				case *ssa.Store:
+					if x.Addr != ssa.Value(a) {
+						okRefs = false
+					}
+				case *ssa.UnOp:
+					if x.Op != token.MUL {
+						okRefs = false
+					}
+				case *ssa.DebugRef:
+				default:
+					okRefs = false
+				}
+			}
+			if okRefs {
+				tracked[a] = true
+			}
+		}
 	}
 	var path []*ssa.BasicBlock
 	onPath := map[*ssa.BasicBlock]bool{}
@@ -91,6 +127,16 @@ func PathAvoidingIf(fn *ssa.Function, target ssa.Instruction, avoid func(ssa.Ins
 			if x.Op == token.NOT {
 				at, neg, cv, ic, ok := resolve(x.X, e, depth+1)
 				return at, !neg, !cv, ic, ok
+			}
+			if x.Op == token.MUL {
+				if a, isA := x.X.(*ssa.Alloc); isA && tracked[a] {
+					if v, seen := e.loads[x]; seen {
+						if v == nil {
+							return condAtom{}, false, false, true, true // zero value
+						}
+						return resolve(v, e, depth+1)
+					}
+				}
 			}
 		case *ssa.Phi:
 			pred := e.from[x.Block()]
@@ -126,7 +172,53 @@ func PathAvoidingIf(fn *ssa.Function, target ssa.Instruction, avoid func(ssa.Ins
 			delete(e.from, b)
 		}()
 		pop := func() { path = path[:len(path)-1] }
+		// memory effects of this block are undone when the block is left
+		var memUndo []func()
+		defer func() {
+			for i := len(memUndo) - 1; i >= 0; i-- {
+				memUndo[i]()
+			}
+		}()
 		for _, in := range b.Instrs {
+			switch x := in.(type) {
+			case *ssa.Alloc:
+				if tracked[x] {
+					old, had := e.mem[x]
+					e.mem[x] = nil
+					memUndo = append(memUndo, func() {
+						if had {
+							e.mem[x] = old
+						} else {
+							delete(e.mem, x)
+						}
+					})
+				}
+			case *ssa.Store:
+				if a, ok := x.Addr.(*ssa.Alloc); ok && tracked[a] {
+					old, had := e.mem[a]
+					e.mem[a] = x.Val
+					memUndo = append(memUndo, func() {
+						if had {
+							e.mem[a] = old
+						} else {
+							delete(e.mem, a)
+						}
+					})
+				}
+			case *ssa.UnOp:
+				if a, ok := x.X.(*ssa.Alloc); ok && x.Op == token.MUL && tracked[a] {
+					if v, known := e.mem[a]; known {
+						// remember what this load saw; a stored load is looked through
+						if l2, isLoad := v.(*ssa.UnOp); isLoad {
+							if v2, seen := e.loads[l2]; seen {
+								v = v2
+							}
+						}
+						e.loads[x] = v
+						memUndo = append(memUndo, func() { delete(e.loads, x) })
+					}
+				}
+			}
 			if in == target {
 				if cond != nil {
 					at, neg, cv, isConst, ok := resolve(cond, e, 0)
@@ -195,7 +287,7 @@ func PathAvoidingIf(fn *ssa.Function, target ssa.Instruction, avoid func(ssa.Ins
 		pop()
 		return false
 	}
-	e := &env{assign: map[condAtom]bool{}, from: map[*ssa.BasicBlock]*ssa.BasicBlock{}}
+	e := &env{assign: map[condAtom]bool{}, from: map[*ssa.BasicBlock]*ssa.BasicBlock{}, mem: map[*ssa.Alloc]ssa.Value{}, loads: map[*ssa.UnOp]ssa.Value{}}
 	if walk(fn.Blocks[0], nil, e) {
 		out := append([]*ssa.BasicBlock(nil), path...)
 		return out, true
